@@ -198,6 +198,28 @@ def run(ctx):
     else:
         raise common.CheckerError("TransactionManager::commit is called from a closure of Session::commit; R2/R3 need the direct form")
 
+    # ---- R6 the RDF transaction buffer is applied in issue order
+    # commit_tx replays the buffered operations; a later operation on the same triple overrides an earlier one only if
+    # the replay preserves the order in which the transaction issued them.
+    ctx_fn = P.fn("RdfStore::commit_tx")
+    cfx = FlowCx(P, ctx_fn)
+    appl = [bi for bi, t in ctx_fn.calls() if callee_name(t) in (P.fn("RdfStore::insert").id, P.fn("RdfStore::remove").id)]
+    ctx.floor("R6", len(appl), 2, "apply calls in RdfStore::commit_tx")
+    REORDER = ("partition", "sort", "sort_by", "sort_by_key", "sort_unstable", "sort_unstable_by", "rev", "chain", "filter",
+               "dedup", "retain", "sorted", "partition_in_place", "skip", "step_by", "zip", "rsplit")
+    src_ok, reord, from_buffer = False, set(), False
+    for bi, t in ctx_fn.calls():
+        if (t["f"] or "").endswith("Iterator::next"):
+            # the loop that contains the apply calls
+            if any(a in ctx_fn.reachable_blocks(bi) for a in appl):
+                tg = cfx.tags(t["args"][0])
+                from_buffer = from_buffer or ("cell:RdfStore.tx_buffer" in tg or "cell:TransactionBuffer.buffers" in tg)
+                reord |= {x.split("::")[-1] for x in tg if x.startswith("call:") and x.split("::")[-1] in REORDER}
+    ctx.ob("R6", "RdfStore::commit_tx#issue-order", from_buffer and not reord,
+           what="RdfStore::commit_tx does not apply the transaction's buffered operations in the order they were issued "
+                "(buffer reached: %s, reordering combinators: %s): delete-then-insert of one triple commits as a delete, so only part "
+                "of the transaction's writes survive" % (from_buffer, sorted(reord)), where=ctx_fn.loc())
+
     # ---- R4 dropped session
     drop = None
     for f in P.fns.values():
